@@ -18,8 +18,8 @@ from vf.ref import linq
 
 BACKENDS = ("atlas", "cms_aod")
 RULE = (
-    "cells = every function name of the README's Math list (+ builtin abs, pow) x 3 uses (standalone column, inside +*/ arithmetic, "
-    "inside a comparison + conditional), enumerated completely in every run on two back ends; arguments are computed from Hypothesis-drawn "
+    "cells = every function name of the README's Math list (+ builtin abs, pow) x 5 uses (standalone column, inside +*/ arithmetic, "
+    "inside a comparison + conditional, on integer-typed arguments standalone and inside arithmetic), enumerated completely in every run on two back ends; arguments are computed from Hypothesis-drawn "
     "event data inside each function's domain. non-trivial = a (cell, drawn values) pair with a row on which the namesake differs from every "
     "other listed function of the same arity (so a table row mapped to a sibling is visible); distinct by (cell, values)."
 )
@@ -40,6 +40,18 @@ SPEC.update({
     "fmin": [X, Y], "fma": [X, Y, "j.phi()"],
     "nan": ["''"],
 })
+# the same functions on integer-typed arguments (an int method, int literals, int arithmetic): every function is defined on them
+NN1 = f"({N} * {N} + 1)"
+INTSPEC: Dict[str, List[str]] = {n: [N] for n in ANY1}
+INTSPEC.update({
+    "acos": ["0"], "asin": ["1"], "atanh": ["0"], "acosh": [NN1], "log": [NN1], "ln": [NN1], "log10": [NN1], "log2": [NN1],
+    "log1p": [f"({N} * {N})"], "sqrt": [f"({N} * {N} + 2)"], "tgamma": [NN1], "lgamma": [NN1], "ilogb": [NN1],
+    "ldexp": [N, "3"], "scalbn": [N, "3"], "scalbln": [N, "3"], "atan2": [N, "3"], "pow": ["2", N], "hypot": [N, "4"], "fmod": [N, "3"],
+    "remainder": [N, "4"], "copysign": [N, f"({N} - 2)"], "nextafter": [N, "100"], "nexttoward": [N, "100"], "fdim": [N, "3"],
+    "fmax": [N, "3"], "fmin": [N, "3"], "fma": [N, "2", N], "abs": [f"({N} - 3)"],
+})
+# abs(int) inside a division is the recorded finding abs-int-division (C01): that one cell is left out, and counted
+INT_ARITH_EXCLUDED = {"abs"}
 KNOWN_UNCALLABLE = {"remquo": "documented, but std::remquo needs an int* third argument that no query can supply"}
 README_LIST = ["sin", "cos", "tan", "acos", "asin", "atan", "atan2", "sinh", "cosh", "tanh", "asinh", "acosh", "atanh", "exp", "ldexp", "log",
                "ln", "log10", "exp2", "expm1", "ilogb", "log1p", "log2", "scalbn", "scalbln", "pow", "sqrt", "cbrt", "hypot", "erf", "erfc",
@@ -63,6 +75,11 @@ def build_cells(backend):
         if name != "nan":
             cells.append((f"{name}:arith", f"(({call} * 2 + 1) / 4 - {call})", name))
             cells.append((f"{name}:cond", f"({call} if ({call} > 0.5) else (0 - 1))", name))
+        if name in INTSPEC:
+            icall = f"{name}({', '.join(a.replace('j.NINT()', int_method(backend)) for a in INTSPEC[name])})"
+            cells.append((f"{name}:int", icall, name))
+            if name not in INT_ARITH_EXCLUDED:
+                cells.append((f"{name}:intarith", f"(({icall} * 2 + 1) / 4 - {icall} * 3)", name))
     return cells
 
 
@@ -183,7 +200,7 @@ def worker(payload):
 
 def run(ctx: Ctx):
     ctx.rule = RULE
-    ctx.assumptions = ["the C library (libm via ctypes) is the meaning of 'the function of that name'", "double-typed arguments; relative tolerance 1e-12",
+    ctx.assumptions = ["the C library (libm via ctypes) is the meaning of 'the function of that name'", "double-typed and int-typed arguments; relative tolerance 1e-12",
                        "model of the frameworks (vf/model)"]
     payloads = []
     n_examples = ctx.n(3, 24)
@@ -198,6 +215,7 @@ def run(ctx: Ctx):
             k += 1
     for st_ in run_shards("vf.props.C12", "worker", payloads):
         ctx.stats.merge(st_)
+    ctx.stats.excluded["abs(int)-inside-division (known finding abs-int-division)"] += len(INT_ARITH_EXCLUDED) * len(BACKENDS)
     ctx.stats.extra["names_in_readme_list"] = len(README_LIST)
     ctx.stats.extra["names_enumerated"] = len(SPEC)
     ctx.stats.extra["names_recorded_uncallable"] = sorted(KNOWN_UNCALLABLE)
